@@ -76,9 +76,9 @@ func (fc *FnCtx) freshErr(name string) Val {
 func (fc *FnCtx) newErr(root string) Val {
 	e := fc.B.Fresh("err", "Int")
 	if root != "" {
-		fc.B.Assert(and("(> "+e+" 0)", eq("(err_root "+e+")", root)))
+		fc.B.Assert(and("(> "+e+" 0)", eq("(err_root "+e+")", root), "(not (is_sentinel "+e+"))"))
 	} else {
-		fc.B.Assert("(> " + e + " 0)")
+		fc.B.Assert(and("(> "+e+" 0)", "(not (is_sentinel "+e+"))", "(not (is_sentinel (err_root "+e+")))"))
 	}
 	return Val{S: "Int", T: e, Typ: types.Universe.Lookup("error").Type()}
 }
@@ -93,7 +93,8 @@ func init() {
 		fc := p.fc()
 		in := p.args[0]
 		e := fc.B.Fresh("wrapped", "Int")
-		fc.B.Assert(and("(>= "+e+" 0)", eq(eq(e, "0"), eq(in.T, "0")), eq("(err_root "+e+")", "(err_root "+in.T+")")))
+		// a wrapped error is a new object: never identical to a registered sentinel, same root for errors.Is
+		fc.B.Assert(and("(>= "+e+" 0)", eq(eq(e, "0"), eq(in.T, "0")), eq("(err_root "+e+")", "(err_root "+in.T+")"), "(not (is_sentinel "+e+"))"))
 		return Val{S: "Int", T: e, Typ: in.Typ}
 	}
 	reg("cosmossdk.io/errors.Wrap", wrap)
@@ -418,6 +419,7 @@ func (fr *Frame) marshal(p *preCall, withErr bool) Val {
 	un := "unmarshal_" + sanitize(v.S)
 	fc.B.DeclFun(fn, []string{v.S}, "String")
 	fc.B.DeclFun(un, []string{"String"}, v.S)
+	fc.unmarshalEmpty(un, derefType(obj.Typ))
 	t := "(" + fn + " " + v.T + ")"
 	if !fc.B.inst[t] {
 		fc.B.inst[t] = true
@@ -452,6 +454,7 @@ func (fr *Frame) unmarshal(p *preCall, withErr bool) Val {
 	un := "unmarshal_" + sanitize(s)
 	fc.B.DeclFun(fn, []string{s}, "String")
 	fc.B.DeclFun(un, []string{"String"}, s)
+	fc.unmarshalEmpty(un, elem)
 	v := fc.mkVal(elem, "("+un+" "+bz+")")
 	fc.assumeWF(v, p.reach)
 	if withErr {
